@@ -118,11 +118,20 @@ def rule_data_kernels(ctx: Ctx, rule: str = "parser-kernel-law") -> None:
         ta = TermAlg(prog)
         fi = prog.func("data._combine_optional_floats")
         cases = [((NONE, NONE), num(2)), ((NONE, sym("k")), sym("k") + num(1)), ((sym("j"), NONE), sym("j") + num(1)), ((sym("j"), sym("k")), sym("j") + sym("k"))]
+        # a coefficient that is exactly 0 (after cancellation) is a number, not 'missing'
+        cases += [((num(0), NONE), num(1)), ((NONE, num(0)), num(1)), ((num(0), num(3)), num(3)), ((num(0), num(0)), num(0))]
+        first_undecidable = None
         for (a, b), want in cases:
-            r = ta.call(fi, [a, b], {})
+            try:
+                r = ta.call(fi, [a, b], {})
+            except Undecidable as e:
+                first_undecidable = first_undecidable or e
+                continue
             val = num(1) if isinstance(r, NoneT) else r
             if not isinstance(val, Rat) or not _eq(val, want):
                 return "combining coefficients %s and %s gives %s (None = 1), expected %s" % (a if isinstance(a, NoneT) else a.show(), b if isinstance(b, NoneT) else b.show(), "None" if isinstance(r, NoneT) else r.show(), want.show())
+        if first_undecidable is not None:
+            raise first_undecidable
         return None
 
     _run(ctx, rule, "data._combine_optional_floats", "combining coefficients of equal absolute terms adds them, None standing for 1 in all four cases", k_combine)
@@ -164,6 +173,13 @@ def rule_data_kernels(ctx: Ctx, rule: str = "parser-kernel-law") -> None:
         for wf, wc in want:
             if not any(cmp_tl(g, wf, wc) is None for g in r.items):
                 return "the sign combination %s is missing from the expansion" % {k: v.show() for k, v in wf.items()}
+        # a sign combination in which every variable cancels is still a constraint (on the constants)
+        same = Rec(TL, {"constant": sym("p_c"), "factors": DictV({x: sym("a_x")})})
+        rc = ta.method(mk_atl(base, [mk_at(same, NONE)]), "expand", [])
+        if len(rc.items) != 2:
+            return "|a_x x + p_c| next to a_x x expands to %d term lists instead of 2: the combination without variables was dropped" % len(rc.items)
+        if not any(cmp_tl(g, {}, sym("a_c") - sym("p_c")) is None for g in rc.items):
+            return "the variable-free sign combination (a_c - p_c <= 0) is missing from the expansion"
         r0 = ta.method(mk_atl(base, []), "expand", [])
         if len(r0.items) != 1 or cmp_tl(r0.items[0], {"x": sym("a_x")}, sym("a_c")):
             return "without absolute terms expand() does not return the plain term list"
